@@ -71,6 +71,8 @@ Definition pm_thr_ids (c : sx) : sx :=
                   then SL [SZ 0; SL [SZ 1; SZ 1; SZ (t * k)]]
                   else if (0 <=? t) && (0 <=? k) && (via =? 2)      (* every third creation is followed by an unrelated run that creates one node *)
                   then SL [SZ 0; SL [SZ 1; SZ 1; SZ (t * (k + (k + 2) / 3))]]
+                  else if (0 <=? t) && (0 <=? k) && (via =? 3)      (* every second creation is followed by remove + create on the graph and on a clone *)
+                  then SL [SZ 0; SL [SZ 1; SZ 1; SZ (t * (k + 2 * ((k + 1) / 2)))]]
                   else sx_bad
       | None => sx_bad
       end
